@@ -204,3 +204,45 @@ class OsuIO(GameIO):
             elif w != v:
                 out.append(f"metadata {f}: {w!r} vs first generation {v!r}")
         return [x for x in out if x]
+
+
+def _grid_ok(tempo, times) -> str:
+    """tempo [(ms, bpm)] sorted, first is beat 0; every later tempo point on a measure line, every time on the <=96 grid"""
+    from fractions import Fraction
+
+    if not tempo:
+        return "no tempo point"
+    for (t0, b0), (t1, b1) in zip(tempo, tempo[1:]):
+        beats = Fraction(t1 - t0) * Fraction(b0) / 60000
+        if beats <= 0 or (beats / 4).denominator != 1:
+            return "tempo change off a measure line"
+    for t in times:
+        act = tempo[0]
+        for p in tempo:
+            if p[0] <= t:
+                act = p
+        if t < tempo[0][0]:
+            return "object before the first tempo point"
+        rel = Fraction(t - act[0]) * Fraction(act[1]) / 60000
+        if (rel - (rel.numerator // rel.denominator)).denominator > 96:
+            return "object off the snap grid"
+    return ""
+
+
+def _osu_pipeline_valid(self, doc, c) -> str:
+    keys = doc["keys"]
+    if keys not in c.get("keys", [keys]):
+        return "key count"
+    cols = {ref_osu.x_to_column(o["x"], keys) for o in doc["objs"]}
+    if c.get("grid"):
+        if keys - 1 not in cols:
+            return "last column unused"
+        tempo = sorted((tp["offset"], 60000.0 / float(tp["code"])) for tp in doc["tps"] if tp["kind"] == "bpm")
+        if c.get("t0_zero") and tempo and tempo[0][0] != 0:
+            return "first tempo point not at 0"
+        times = [o["offset"] for o in doc["objs"]] + [o["end"] for o in doc["objs"] if o.get("end") is not None]
+        return _grid_ok(tempo, times)
+    return ""
+
+
+OsuIO.valid_pipeline_doc = _osu_pipeline_valid
